@@ -523,3 +523,148 @@ func GatedStress(seed int64, d time.Duration) CompResult {
 	}
 	return res
 }
+
+type countSink struct {
+	name string
+	n    atomic.Int64
+}
+
+func (c *countSink) Process(ctx context.Context, e *eventlogger.Event) (*eventlogger.Event, error) {
+	c.n.Add(1)
+	return nil, nil
+}
+func (c *countSink) Reopen() error              { return nil }
+func (c *countSink) Type() eventlogger.NodeType { return eventlogger.NodeTypeSink }
+
+// OverwriteStress: senders hammer one event type while a single client keeps overwriting pipeline "p"
+// with alternating versions. Every Send must be processed by exactly one version (never both, never
+// neither), and once an overwriting call has returned only by a version registered at or after it.
+func OverwriteStress(seed int64, d time.Duration) []Problem {
+	var problems []Problem
+	var pmu sync.Mutex
+	problem := func(prop, f string, a ...interface{}) {
+		pmu.Lock()
+		if len(problems) < 6 {
+			problems = append(problems, Problem{prop, fmt.Sprintf(f, a...)})
+		}
+		pmu.Unlock()
+	}
+	b, _ := eventlogger.NewBroker()
+	b.RegisterNode("fmt", &leaf{eventlogger.NodeTypeFormatter})
+	var installed atomic.Int64 // highest version whose registration has returned
+	var verc int64
+	mkVer := func() (int, *marker) {
+		v := int(atomic.AddInt64(&verc, 1))
+		m := &marker{ver: v, seen: map[int]int{}}
+		return v, m
+	}
+	var markers sync.Map
+	regVer := func() {
+		v, m := mkVer()
+		markers.Store(v, m)
+		mid, sid := eventlogger.NodeID(fmt.Sprintf("mk%d", v)), eventlogger.NodeID(fmt.Sprintf("sk%d", v))
+		b.RegisterNode(mid, m)
+		b.RegisterNode(sid, &leaf{eventlogger.NodeTypeSink})
+		if err := b.RegisterPipeline(eventlogger.Pipeline{PipelineID: "p", EventType: "t", NodeIDs: []eventlogger.NodeID{mid, "fmt", sid}}); err != nil {
+			problem("C07", "overwriting RegisterPipeline failed: %v", err)
+			return
+		}
+		installed.Store(int64(v))
+	}
+	regVer()
+	b.SetSuccessThreshold("t", 1)
+	stop := make(chan struct{})
+	var wg sync.WaitGroup
+	var sendID, sends int64
+	for s := 0; s < 8; s++ {
+		wg.Add(1)
+		go func() {
+			defer wg.Done()
+			for {
+				select {
+				case <-stop:
+					return
+				default:
+				}
+				sid := int(atomic.AddInt64(&sendID, 1))
+				floor := installed.Load()
+				st, err := b.Send(context.Background(), "t", sid)
+				atomic.AddInt64(&sends, 1)
+				var saw []int
+				markers.Range(func(k, v interface{}) bool {
+					m := v.(*marker)
+					m.mu.Lock()
+					c := m.seen[sid]
+					delete(m.seen, sid)
+					m.mu.Unlock()
+					for i := 0; i < c; i++ {
+						saw = append(saw, m.ver)
+					}
+					return true
+				})
+				switch {
+				case len(saw) == 0:
+					problem("C07", "a Send was processed by NO version of a pipeline that was registered throughout (only overwritten): status complete=%v err=%v", st.Complete(), err)
+				case len(saw) > 1:
+					problem("C07", "a Send was processed by %d versions of one pipeline: %v", len(saw), saw)
+				case int64(saw[0]) < floor:
+					problem("C07", "a Send that started after the overwrite to version %d had returned was processed by version %d", floor, saw[0])
+				}
+			}
+		}()
+	}
+	deadline := time.Now().Add(d)
+	for time.Now().Before(deadline) {
+		regVer()
+	}
+	close(stop)
+	wg.Wait()
+	return problems
+}
+
+// FirstUseStress: the first registration for a fresh event type races with the two threshold setters;
+// once all three calls returned, the broker must be in a state some sequential order produces:
+// the pipeline registered and delivering exactly once, both thresholds read back as set.
+func FirstUseStress(seed int64, rounds int) []Problem {
+	var problems []Problem
+	b, _ := eventlogger.NewBroker()
+	b.RegisterNode("fmt", &leaf{eventlogger.NodeTypeFormatter})
+	sink := &countSink{}
+	b.RegisterNode("sink", sink)
+	for i := 0; i < rounds && len(problems) < 4; i++ {
+		t := eventlogger.EventType(fmt.Sprintf("et-%d", i))
+		var start, done sync.WaitGroup
+		start.Add(1)
+		errs := make([]error, 3)
+		for k := 0; k < 3; k++ {
+			done.Add(1)
+			go func(k int) {
+				defer done.Done()
+				start.Wait()
+				switch k {
+				case 0:
+					errs[0] = b.RegisterPipeline(eventlogger.Pipeline{PipelineID: "p", EventType: t, NodeIDs: []eventlogger.NodeID{"fmt", "sink"}})
+				case 1:
+					errs[1] = b.SetSuccessThreshold(t, 1)
+				case 2:
+					errs[2] = b.SetSuccessThresholdSinks(t, 1)
+				}
+			}(k)
+		}
+		start.Done()
+		done.Wait()
+		if errs[0] != nil || errs[1] != nil || errs[2] != nil {
+			problems = append(problems, Problem{"C04", fmt.Sprintf("first-use calls failed: %v", errs)})
+			continue
+		}
+		a, ok1 := b.SuccessThreshold(t)
+		s, ok2 := b.SuccessThresholdSinks(t)
+		before := sink.n.Load()
+		_, err := b.Send(context.Background(), t, i)
+		got := sink.n.Load() - before
+		if !b.IsAnyPipelineRegistered(t) || got != 1 || a != 1 || s != 1 || !ok1 || !ok2 || err != nil {
+			problems = append(problems, Problem{"C04", fmt.Sprintf("after RegisterPipeline, SetSuccessThreshold(1) and SetSuccessThresholdSinks(1) ran concurrently on a fresh event type and all returned nil: registered=%v delivered=%d thresholds=%d,%d err=%v - no sequential order of the three calls gives this", b.IsAnyPipelineRegistered(t), got, a, s, err)})
+		}
+	}
+	return problems
+}
